@@ -17,7 +17,8 @@ REPO = os.environ.get("VERIF_REPO") or "/repo"
 WORK = os.path.join(VERIF, "work")
 TARGET = os.path.join(VERIF, "target")
 HARNESS = os.path.join(VERIF, "harness")
-EVIDENCE = os.path.join(VERIF, "evidence")
+# campaign runs (seeded changes applied to the tree) write their evidence elsewhere: evidence/ only ever holds runs on the unchanged tree
+EVIDENCE = os.environ.get("VERIF_EVIDENCE_DIR") or os.path.join(VERIF, "evidence")
 KNOWN = os.path.join(VERIF, "KNOWN_FINDINGS.txt")
 CONFIGS = {
     "tc": [],
